@@ -348,6 +348,40 @@ pub fn search_serial(rng: &mut Rng, rounds: usize) -> Option<Cex> {
                 }
             }
         }
+        // ---- one bus object over a whole conversation: every exchange is judged on its own, whatever came before
+        // (a reply that could not be decoded, a failed exchange) - the bus keeps no state between messages
+        {
+            let shared = Rc::new(RefCell::new(ScriptPort::new(b"")));
+            let mut bus = SerialSignBus::try_new(SharedPort(shared.clone())).unwrap();
+            let mut history = String::new();
+            for step in 0..10 {
+                let m = match rng.below(3) { 0 => Message::Hello(Address(3)), 1 => Message::QueryState(Address(3)), _ => Message::RequestOperation(Address(3), Operation::StartReset) };
+                let good = rng.below(2) == 0;
+                let line: Vec<u8> = if good { replies[rng.below(replies.len() as u64) as usize].clone() } else { bad_replies[2 + rng.below(3) as usize].clone() };
+                {
+                    let mut p = shared.borrow_mut();
+                    p.inbound.clear();
+                    p.inbound.extend(line.iter().copied());
+                    p.written.clear();
+                }
+                let input = format!("one bus object, exchange {} {:?} answered {:?} after [{}]", step, m, String::from_utf8_lossy(&line), history);
+                let r = match catch_unwind(AssertUnwindSafe(|| bus.process_message(m.clone()))) { Ok(r) => r, Err(_) => return Some(Cex { domain: "serial", input, expected: "no panic".into(), actual: "panic".into() }) };
+                let want_out = Frame::from(m.clone()).to_bytes_with_newline();
+                if shared.borrow().written != want_out {
+                    return Some(Cex { domain: "serial", input, expected: format!("port receives {}", String::from_utf8_lossy(&want_out).trim()), actual: format!("{}", String::from_utf8_lossy(&shared.borrow().written).trim()) });
+                }
+                if good {
+                    let want = Some(Message::from(Frame::from_bytes(&line).unwrap()));
+                    match &r {
+                        Ok(got) if *got == want => {}
+                        other => return Some(Cex { domain: "serial", input, expected: format!("{:?}", want), actual: format!("{:?}", other.as_ref().map_err(|e| e.to_string())) }),
+                    }
+                } else if r.is_ok() {
+                    return Some(Cex { domain: "serial", input, expected: "Err (undecodable reply)".into(), actual: format!("{:?}", r.map_err(|e| e.to_string())) });
+                }
+                history.push_str(if good { "ok " } else { "bad " });
+            }
+        }
     }
     None
 }
